@@ -243,9 +243,9 @@ theorem filterCandset_missing (a : CandsetArgs) (fp : Cell → Cell → Except P
     (hv7 : validateAttrType a.lAttr l = .ok ()) (hv8 : validateAttrType a.rAttr r = .ok ())
     (hv9 : validateKeyAttr a.lKey l = .ok ()) (hv10 : validateKeyAttr a.rKey r = .ok ())
     (lval rval : Row → Cell)
-    (hl : ∀ cr ∈ c.rows, ∃ lrow ∈ l.rows, lrow.cell (l.colIdx a.lKey) = cr.cell (c.colIdx a.candLKey) ∧
+    (hl : ∀ cr ∈ c.rows, ∃ lrow ∈ l.rows, (lrow.cell (l.colIdx a.lKey)).pyEq (cr.cell (c.colIdx a.candLKey)) = true ∧
                                          lrow.cell (l.colIdx a.lAttr) = lval cr)
-    (hr : ∀ cr ∈ c.rows, ∃ rrow ∈ r.rows, rrow.cell (r.colIdx a.rKey) = cr.cell (c.colIdx a.candRKey) ∧
+    (hr : ∀ cr ∈ c.rows, ∃ rrow ∈ r.rows, (rrow.cell (r.colIdx a.rKey)).pyEq (cr.cell (c.colIdx a.candRKey)) = true ∧
                                          rrow.cell (r.colIdx a.rAttr) = rval cr)
     (hok : ∀ cr ∈ c.rows, fp (lval cr) (rval cr) = .ok (fpb (lval cr) (rval cr)))
     (hchunks : (chunksFor (candLabelled c) a.nJobs cpu).flatten = candLabelled c) :
@@ -276,14 +276,15 @@ theorem applyMatcher_missing (a : MatcherArgs) (t : Option TokObj) (toks : TokFn
     (hv8 : ∀ tk, t = some tk → validateTokenizer tk = .ok ())
     (hv9 : genCheck (Gen.validate_comp_op (.str a.compOp)) = .ok ())
     (hv10 : validateKeyAttr a.lKey l = .ok ()) (hv11 : validateKeyAttr a.rKey r = .ok ())
-    (hl : ∀ cr ∈ c.rows, cr.cell (c.colIdx a.candLKey) ∈ l.col a.lKey)
-    (hr : ∀ cr ∈ c.rows, cr.cell (c.colIdx a.candRKey) ∈ r.col a.rKey)
+    (hl : ∀ cr ∈ c.rows, PyMem (cr.cell (c.colIdx a.candLKey)) (l.col a.lKey))
+    (hr : ∀ cr ∈ c.rows, PyMem (cr.cell (c.colIdx a.candRKey)) (r.col a.rKey))
     (hchunks : (chunksFor c.rows a.nJobs cpu).flatten = c.rows)
     (hstr : t.isSome → StrColumn l a.lAttr ∧ StrColumn r a.rAttr) :
     ∃ fr, applyMatcher a t toks sim cpu = .ok fr ∧
       fr.rows = c.rows.filterMap (matcherTableSpec a t toks sim c l r) ∧
       ∀ cr ∈ c.rows, ∀ ls ∈ l.rows, ∀ rs ∈ r.rows,
-        keyOf l a.lKey ls = cr.cell (c.colIdx a.candLKey) → keyOf r a.rKey rs = cr.cell (c.colIdx a.candRKey) →
+        (keyOf l a.lKey ls).pyEq (cr.cell (c.colIdx a.candLKey)) = true →
+        (keyOf r a.rKey rs).pyEq (cr.cell (c.colIdx a.candRKey)) = true →
         (¬ Present l a.lAttr ls ∨ ¬ Present r a.rAttr rs) →
         (a.allowMissing = false → matcherTableSpec a t toks sim c l r cr = none) ∧
         (a.allowMissing = true → ∃ cells, matcherTableSpec a t toks sim c l r cr =
